@@ -8,7 +8,9 @@ RULE = ("random: G-TABLE x G-THRESHOLD x G-CONFIG over the five set joins, non-t
         "'must' set non-empty and some token-sharing pair is outside 'may'; E1: every size "
         "triple (n,m,o) at its critical and grid thresholds with all common tokens last; "
         "E2: every arrangement of <=U ordered tokens; enumerated instances are non-trivial "
-        "by construction; distinct = distinct case-record digests")
+        "by construction; 'dense': both tables hold all subsets (size<=k) of a U-token universe "
+        "plus a hub token, per measure/threshold/operator/n_jobs; distinct = distinct "
+        "case-record digests")
 ASSUMPTIONS = ["py_stringmatching tokenizers are correct (fresh instance used by the oracle)",
                "pandas/numpy construct inputs and read outputs faithfully",
                "n_jobs>1 runs the library's split/concat code on joblib's threading backend"]
